@@ -235,6 +235,11 @@ void SkipRecord(Byte Header, char const* Name, FILE* f) {
         if (!Read4(f, &StringLen)) {
             ChkRdIO(Name, f);
         }
+        /* a total that does not fit would become a backward seek */
+        if ((RelocCount > 0x01ffffff) || (ExportCount > 0x01ffffff)
+            || (StringLen > 0x3fffffff)) {
+            FormatError(Name, catgetmessage(&MsgCat, Num_FormatBadRecordMsg));
+        }
         Length = (16 * RelocCount) + (16 * ExportCount) + StringLen;
         break;
     default:
